@@ -39,6 +39,12 @@ def main():
     ok, log = vlib.translate()
     if not ok:
         res.broken_ties.append('translator: ' + log[-1500:])
+    # 1b. the function translator, for the properties whose theorems speak about the translated C text
+    if 'GenCFuncs.v' in vlib.coq_deps('Properties_%s.v' % pid):
+        ok, log = vlib.translate_funcs()
+        res.extra['c2clite'] = log.strip()[-300:]
+        if not ok:
+            res.broken_ties.append('function translator (c2clite.py): ' + log[-1500:])
     # 2. prove
     forb = vlib.scan_forbidden(pid)
     res.proof['forbidden'] = forb
